@@ -24,6 +24,209 @@ import types
 from harness.common import Check, MachineryFailure
 
 
+def pathway_sets(ck, qr, numpy, rng, MockTwoDResponseCalculator):
+    """Pathways.tla: TLC decides, for every bright/dark pattern and every
+    transfer pattern in the bound, that the six generators produce exactly
+    the double-sided diagrams of their direction.  Here the lists produced
+    by the real generators for real aggregates (dark states, dark molecules,
+    transfer during the waiting time) are validated by TLC against the same
+    module (PathwaysTrace)."""
+    import io
+    import contextlib
+    quick = "Pathways.cfg"
+    ck.tlc("Pathways", quick, workers=16)
+    if ck.thorough:
+        ck.tlc("Pathways", "Pathways_3.cfg", workers=16, timeout=1500)
+    ck.tlc("Pathways", "Pathways_defect_r3g.cfg", count=False,
+           expect_violation="Complete")
+    ck.tlc("Pathways", "Pathways_defect_esa.cfg", count=False,
+           expect_violation="Sound")
+
+    def system(energies, dipoles, coupling, transfer):
+        mols = []
+        with qr.energy_units("1/cm"):
+            for en in energies:
+                m = qr.Molecule([0.0, en])
+                m.set_transition_width((0, 1), 100.0)
+                mols.append(m)
+        for m, d in zip(mols, dipoles):
+            m.set_dipole(0, 1, list(d))
+        agg = qr.Aggregate(molecules=mols)
+        with qr.energy_units("1/cm"):
+            for (i, j), J in (coupling or {}).items():
+                agg.set_resonance_coupling(i, j, J)
+        agg1 = agg.deepcopy()
+        agg1.build(mult=1)
+        ham = agg1.get_Hamiltonian()
+        t2a = qr.TimeAxis(0.0, 5, 10.0)
+        ops, rates = [], []
+        with qr.eigenbasis_of(ham):
+            for (a, b, k) in (transfer or [(0, 0, 0.0)]):
+                ops.append(qr.qm.ProjectionOperator(a, b, dim=ham.dim))
+                rates.append(k)
+        sbi = qr.qm.SystemBathInteraction(ops, rates=tuple(rates))
+        lform = qr.qm.LindbladForm(ham, sbi)
+        eUt = qr.EvolutionSuperOperator(t2a, ham, relt=lform)
+        eUt.set_dense_dt(10)
+        eUt.calculate()
+        agg.build(mult=2)
+        agg.diagonalize()
+        return agg, eUt
+
+    X = [1.0, 0.0, 0.0]
+    Y = [0.0, 1.0, 0.0]
+    Z0 = [0.0, 0.0, 0.0]
+    specs = [
+        ("dimer", [12000., 12300.], [X, Y], None, None, 0.0),
+        ("dimer-coupled", [12000., 12300.], [X, [0.3, 1, 0]],
+         {(0, 1): 100.0}, None, 0.0),
+        # symmetric homodimer: the antisymmetric exciton is dark
+        ("homodimer-dark-exciton", [12000., 12000.], [X, X],
+         {(0, 1): 100.0}, None, 0.0),
+        ("dimer-dark-molecule", [12000., 12300.], [X, Z0], None, None, 0.0),
+        ("dimer-transfer", [12000., 12300.], [X, Y], {(0, 1): 60.0},
+         [(1, 2, 0.02)], 20.0),
+        ("trimer", [12000., 12250., 12400.], [X, Y, [1, 1, 1]], None, None,
+         0.0),
+        ("trimer-coupled-transfer", [12000., 12250., 12400.],
+         [X, Y, [1, 1, 1]], {(0, 1): 80.0, (1, 2): -50.0},
+         [(1, 2, 0.01), (2, 3, 0.02)], 20.0),
+        ("trimer-dark-molecule-transfer", [12000., 12250., 12400.],
+         [X, Z0, [0, 1, 1]], None, [(2, 3, 0.02), (1, 2, 0.01)], 30.0),
+    ]
+    if ck.thorough:
+        for k in range(6):
+            n = 2 + k % 2
+            en = list(12000.0 + numpy.sort(rng.uniform(0, 500, size=n)))
+            dp = [list(rng.randn(3) * (rng.rand() > 0.25)) for i in range(n)]
+            cp = {(i, j): float(rng.uniform(-100, 100))
+                  for i in range(n) for j in range(i + 1, n)
+                  if rng.rand() < 0.6}
+            trn = [(int(a), int(b), float(rng.uniform(0.005, 0.03)))
+                   for a in range(1, n + 1) for b in range(1, n + 1)
+                   if a != b and rng.rand() < 0.4]
+            specs.append(("random%d" % k, en, dp, cp, trn or None,
+                          20.0 if trn else 0.0))
+    names = ["R1g", "R2g", "R3g", "R4g", "R1f*", "R2f*"]
+    systems, labels = [], []
+    for (label, en, dp, cp, trn, t2) in specs:
+        rp = dict(kind="pathway-set", system=label, energies=en,
+                  dipoles=[list(map(float, d)) for d in dp],
+                  coupling=str(cp), transfer=str(trn), t2=t2)
+        with ck.guarded("pathway-set", label, rp, rp):
+            with contextlib.redirect_stdout(io.StringIO()):
+                agg, eUt = system(en, dp, cp, trn)
+            gs = list(agg.get_electronic_groundstate())
+            E = list(agg.get_excitonic_band(band=1))
+            F = list(agg.get_excitonic_band(band=2))
+            ne, nf = len(E), len(F)
+            if gs != [0] or E != list(range(1, ne + 1)) or \
+                    F != list(range(ne + 1, ne + nf + 1)):
+                ck.model_drift("state numbering of %s: %r %r %r" % (
+                    label, gs, E, F))
+                continue
+            D2 = numpy.array(agg.D2)
+            if numpy.abs(D2 - D2.T).max() > 1e-9 * agg.D2_max:
+                ck.model_drift("D2 of %s is not symmetric" % label)
+                continue
+            # thresholds exactly as liouville_pathways_3T takes them
+            dip_tol = numpy.sqrt(agg.D2_max) * 1.0e-12
+            evf_tol = 1.0e-6
+            # stay away from the thresholds (rounding decides there)
+            vals = [D2[e, 0] for e in E] + [D2[f, e] for f in F for e in E]
+            if any(0.01 * dip_tol < v < 100 * dip_tol for v in vals):
+                ck.note("pathway-set %s: a dipole strength within two "
+                        "decades of the threshold, skipped" % label)
+                continue
+            U = eUt.at(t2)
+            with qr.eigenbasis_of(eUt.get_Hamiltonian()):
+                Ud = numpy.array(U.data)
+            trset = []
+            edge = False
+            for a in E:
+                for b in E:
+                    for c in E:
+                        for d in E:
+                            v = abs(Ud[a, b, c, d])
+                            if v > evf_tol:
+                                trset.append([a, b, c, d])
+                            if 0.01 * evf_tol < v < 100 * evf_tol:
+                                edge = True
+            if edge:
+                ck.note("pathway-set %s: a transfer amplitude within two "
+                        "decades of the threshold, skipped" % label)
+                continue
+            rec = {}
+            for nm in names:
+                with contextlib.redirect_stdout(io.StringIO()):
+                    lst = agg.liouville_pathways_3T(ptype=nm, eUt=eUt, t2=t2)
+                out = []
+                for lp in lst:
+                    rel = []
+                    if lp.relaxations and lp.relaxations[0] is not None:
+                        fin, sta = lp.relaxations[0]
+                        rel = [int(fin[0]), int(fin[1]), int(sta[0]),
+                               int(sta[1])]
+                    out.append(dict(
+                        t=[[int(x) for x in row] for row in lp.transitions],
+                        s=[int(x) for x in lp.sides], rel=rel))
+                    if int(lp.sign) != int(numpy.prod(lp.sides)):
+                        ck.violation("pathway-sign", "%s:%s" % (label, nm),
+                                     dict(rp, type=nm), rp)
+                rec[nm] = out
+                ck.case("pathway-set", (label, nm), nontrivial=len(out) > 0,
+                        sample=dict(system=label, type=nm, count=len(out)))
+            systems.append(dict(
+                ne=ne, nf=nf, b1=[e for e in E if D2[e, 0] > dip_tol],
+                b2=[[f, e] for f in F for e in E if D2[f, e] > dip_tol],
+                tr=trset, rec=rec))
+            labels.append((label, rp))
+    if len(systems) < 6:
+        raise MachineryFailure("pathway sets: only %d systems" % len(systems))
+
+    def validate(systs):
+        import tempfile, json, os, shutil
+        tmp = tempfile.mkdtemp(prefix="pw_")
+        try:
+            path = os.path.join(tmp, "pw.json")
+            with open(path, "w") as f:
+                json.dump(dict(systems=systs), f)
+            return ck.tlc("PathwaysTrace", "PathwaysTrace.cfg", workers=4,
+                          env={"TRACE_FILE": path}, count=True,
+                          _allow_violation=True)
+        finally:
+            shutil.rmtree(tmp, ignore_errors=True)
+    res = validate(systems)
+    ck.traces_validated += len(systems)
+    if res["violated"]:
+        import re
+        m = re.findall(r"sid = (\d+)", res["out"])
+        sid = int(m[-1]) if m else 0
+        label, rp = labels[sid - 1] if sid else ("?", {})
+        inv = str(res["violated"])
+        ck.violation("pathway-set-is-specified",
+                     "%s:%s" % (inv, label),
+                     dict(rp, invariant=inv,
+                          counts={k: len(v) for k, v in
+                                  systems[sid - 1]["rec"].items()}
+                          if sid else {}), rp)
+    # negative control of the binding: a list with one pathway removed and a
+    # list with one pathway twice must be rejected
+    if res["violated"]:
+        return
+    import copy
+    bad = copy.deepcopy(systems[1])
+    bad["rec"]["R3g"] = bad["rec"]["R3g"][1:]
+    r1 = validate([bad])
+    bad = copy.deepcopy(systems[1])
+    bad["rec"]["R1f*"].append(bad["rec"]["R1f*"][0])
+    r2 = validate([bad])
+    ck.traces_validated -= 0
+    if r1["violated"] != "RecR3g" or r2["violated"] != "RecR1f":
+        raise MachineryFailure("corrupted pathway lists accepted (%r, %r)" %
+                               (r1["violated"], r2["violated"]))
+
+
 def main():
     ck = Check("C12")
     import numpy
@@ -292,6 +495,8 @@ def main():
                     if e > 1e-9:
                         ck.violation("additivity-uncoupled", "part:" + k,
                                      dict(rp, part=k, err=e), rp)
+
+    pathway_sets(ck, qr, numpy, rng, MockTwoDResponseCalculator)
 
     ck.assume("the icosahedral rotation group is a 5-design on SO(3) (its "
               "first non-trivial invariant polynomial has degree 6) and the "
